@@ -13,7 +13,7 @@ def in_scope(enc):
     return enc.kind in ('request', 'response', 'vendor', 'writer')
 
 
-def analysed(chk):
+def analysed(chk, rule='encoder', kinds=None, report=True):
     """All encoders with their Ok leaves analysed once: [(enc, lf, know, length, ordered|None, why)]"""
     an = chk.an
     encs = E.discover(an)
@@ -26,6 +26,14 @@ def analysed(chk):
             continue
         if enc.kind == 'stub':
             continue
+        for lf in enc.bad_leaves():
+            if lf.kind == 'unanalysable' and report and (kinds is None or enc.kind in kinds):
+                fn, sp = local_site(an.prog, lf)
+                chk.unanalysable = getattr(chk, 'unanalysable', 0) + 1
+                chk.ob(rule, '%s (unanalysable path)' % enc.entry, False,
+                       chk.key(enc.entry, rule, fn, 'cannot-certify:' + lf.panic[1][:120]),
+                       'cannot certify %s: a path of the encoder cannot be analysed (%s)' % (enc.key, lf.panic[1]), site=sp,
+                       detail={'leaf': dump_leaf(lf, an.prog, heap=False), 'call_path': call_path(lf)})
         for lf in enc.ok_leaves():
             length = E.ok_length(an.prog, lf)
             atoms = E.written_atoms(lf, enc.bufname)
@@ -82,6 +90,7 @@ def need_chain(chk, rule, enc, lf, ordered, why):
 # ------------------------------------------------------------------------------ C03
 
 def c03(chk):
+    RULE = 'C03'
     an, prog = chk.an, chk.an.prog
     chk.explanation = (
         'Every encoder (17 request encoders, vendor_defined, 6 response encoders, the four generate_*_packet_bytes writers at '
@@ -89,11 +98,11 @@ def c03(chk):
         'buffer. On every Ok leaf the written bytes are ordered into a gap-free chain; C03.a: the last byte is the result of '
         'smbus_pec::pec over the view [0, len-1) of this same buffer, computed when exactly the final content was in place '
         '(no byte written afterwards), and the returned length ends right after it. C03.b (funnel): smbus_pec::pec is the '
-        'resolved callee, called for encoders from exactly one site. The thorough tier also checks the PEC routine\'s '
+        'resolved callee, called for encoders from exactly one site. C03.d: the same PEC rule on every response process_packet generates. The thorough tier also checks the PEC routine\'s '
         'structural parameters in its MIR and the Cargo.lock pin.')
     chk.rules_text = 'R-layout on the last written byte of every Ok leaf; who-may-call rule on smbus_pec::pec'
     chk.assumptions = ['that smbus_pec::pec 1.0.1 computes CRC-8 poly 0x07 init 0 on every input is not decided (dependency arithmetic); only which routine is called, over which bytes, and (thorough) its structural parameters']
-    encs, rows = analysed(chk)
+    encs, rows = analysed(chk, 'C03.a')
     n = 0
     for enc, lf, know, length, ordered, why in rows:
         n += 1
@@ -105,7 +114,7 @@ def c03(chk):
                chk.key(enc.entry, 'C03.a', enc.key, 'pec:' + str(bad)),
                'packet encoded by %s does not end with the PEC of all preceding bytes: %s' % (enc.key, bad),
                site=site_of(enc), detail={'leaf': dump_leaf(lf, prog)})
-    chk.floor('encoder Ok leaves', n, 60)
+    chk.floor('encoder Ok leaves (plus reported unanalysable paths)', n + getattr(chk, 'unanalysable', 0), 60)
     chk.floor('encoders analysed', len([e for e in encs if in_scope(e)]), N_ENCODERS_FLOOR)
     # funnel: call sites of the pec routine in the crate
     sites = []
@@ -124,6 +133,22 @@ def c03(chk):
            chk.key('crate', 'C03.b', 'smbus_pec', 'encoder-sites:%d' % len(enc_sites)),
            'the encoders compute the PEC at %d sites (%s), expected the single packet writer' % (len(enc_sites), enc_sites))
     chk.extra['pec_call_sites'] = [list(s) for s in sites]
+    # C03.d: the responses process_packet generates are encoded packets too
+    import proc_rules
+    prows, pna = proc_rules.proc_rows(chk)
+    nresp = proc_rules.report_unanalysable(chk, 'C03.d', prows, pna)
+    for r in prows:
+        if not r.responds:
+            continue
+        nresp += 1
+        ordered, why = proc_rules.resp_chain(r)
+        bad = why if ordered is None else E.pec_check(r.lf, r.lf.know, ordered, proc_rules.BUF, r.resp_len)
+        chk.evals()
+        chk.ob('C03.d', r.sub, bad is None,
+               chk.key(proc_rules.ENT, 'C03.d', r.fn, 'pec:cmd=%s:%s' % (allowed_desc(r.lf.know, in_leaf('packet', 10)), bad)),
+               'the response process_packet generates (command %s) does not end with the PEC of all its preceding bytes: %s' % (
+                   allowed_desc(r.lf.know, in_leaf('packet', 10)), bad), site=r.sp, detail={'leaf': dump_leaf(r.lf, prog, pna)})
+    chk.floor('responding leaves of process_packet (plus reported unanalysable paths)', nresp, 40)
     if chk.tier == 'thorough':
         import pec_params
         pec_params.check(chk)
@@ -132,6 +157,7 @@ def c03(chk):
 # ------------------------------------------------------------------------------ C04
 
 def c04(chk):
+    RULE = 'C04'
     an, prog = chk.an, chk.an.prog
     chk.explanation = (
         'On every Ok leaf of every encoder: C04.a bytes 0-3 equal the reference (dest[6:0]<<1 with bit 0 clear, 0x0F, byte '
@@ -143,9 +169,10 @@ def c04(chk):
         'documented refusal, i.e. oversize input is refused, not truncated.')
     chk.rules_text = 'R-layout (bit level) on cells 0-3, Lin identity on the length, R-agree with the length probe, R-class on refusals'
     chk.assumptions = ['addresses are the low 7 bits of the u8 arguments (the template masks them by construction)']
-    encs, rows = analysed(chk)
+    encs, rows = analysed(chk, 'C04.a')
     probe, pna = an.leaves('ctx.get_length')
     probe_ok = describe_probe_ok(prog, probe)
+    probe_b2 = probe_ok_counts(prog, probe)
     n = 0
     for enc, lf, know, length, ordered, why in rows:
         n += 1
@@ -169,6 +196,9 @@ def c04(chk):
             if ok:
                 c2, t2 = lin_of(b2)
                 ok = eq_under(know, mk_lin(USIZE, c2 + 4, t2), length) is True
+                # every value the byte count can take on this leaf must lie in the probe's Ok leaf(s)
+                lo2, hi2 = know.interval(c2, t2)
+                ok = ok and 0 <= lo2 and hi2 <= 255 and all(v in probe_b2 for v in range(lo2, hi2 + 1))
             chk.evals()
             chk.ob('C04.d', leaf_id(enc, lf), ok,
                    chk.key(enc.entry, 'C04.d', enc.key, 'probe-disagrees'),
@@ -185,7 +215,7 @@ def c04(chk):
                    chk.key(enc.entry, 'C04.e', enc.key, 'undocumented-refusal:' + ';'.join(guard_text(lf)[-2:])),
                    '%s refuses input for an undocumented reason: %s' % (enc.key, '; '.join(guard_text(lf))), site=site_of(enc),
                    detail={'leaf': dump_leaf(lf, prog)})
-    chk.floor('encoder Ok leaves', n, 60)
+    chk.floor('encoder Ok leaves (plus reported unanalysable paths)', n + getattr(chk, 'unanalysable', 0), 60)
 
 
 def describe_probe_ok(prog, probe):
@@ -201,6 +231,18 @@ def describe_probe_ok(prog, probe):
             if eq_under(plf.know, res[1], want) is not True:
                 return None
             vals |= set(plf.know.leaf_allowed(in_leaf('packet', 1)))
+    return vals
+
+
+def probe_ok_counts(prog, probe):
+    """Byte-2 values for which the probe (byte 1 = 0x0F, >= 3 bytes) returns Ok."""
+    ge3 = mk_cmp('Ge', len_term('packet'), K(USIZE, 3))[1]
+    vals = set()
+    for plf in probe:
+        if plf.kind != 'return' or feasible_with(plf, [ge3]) is None:
+            continue
+        if describe_result(prog, plf.value)[0] == 'Ok' and 0x0F in plf.know.leaf_allowed(in_leaf('packet', 1)):
+            vals |= set(plf.know.leaf_allowed(in_leaf('packet', 2)))
     return vals
 
 
@@ -249,6 +291,7 @@ def refusal_reason(enc, lf):
 # ------------------------------------------------------------------------------ C05
 
 def c05(chk):
+    RULE = 'C05'
     an, prog = chk.an, chk.an.prog
     chk.explanation = (
         'R-layout on bytes 4-8 of every Ok leaf of every encoder, bit by bit: 0x01 (reserved 0, version 1); the full 8 bits '
@@ -256,7 +299,7 @@ def c05(chk):
         '(and TO 1, tag 0 for requests, vendor and SPDM writers; for response encoders only the top four bits are '
         'constrained, as the statement says); IC bit 0 with the 7-bit type of the API used.')
     chk.rules_text = 'R-layout (bit level) on cells 4-8; all arguments symbolic'
-    encs, rows = analysed(chk)
+    encs, rows = analysed(chk, 'C05')
     n = 0
     for enc, lf, know, length, ordered, why in rows:
         n += 1
@@ -282,14 +325,14 @@ def c05(chk):
                    'response encoded by %s does not carry SOM=1 EOM=1 seq=0 in byte 7' % enc.key, site=site_of(enc))
         else:
             cell_rule(chk, 'C05', enc, lf, know, ordered, items, [4, 5, 6, 7, 8], 'transport header')
-    chk.floor('encoder Ok leaves', n, 60)
+    chk.floor('encoder Ok leaves (plus reported unanalysable paths)', n + getattr(chk, 'unanalysable', 0), 60)
 
 
 # ------------------------------------------------------------------------------ C06 / C07 / C08
 
 def body_rule(chk, rule, kinds, what):
     an, prog = chk.an, chk.an.prog
-    encs, rows = analysed(chk)
+    encs, rows = analysed(chk, rule, kinds=kinds)
     n = 0
     seen = set()
     for enc, lf, know, length, ordered, why in rows:
@@ -352,7 +395,7 @@ def c06(chk):
         chk.ob('C06.present', 'req.' + api, ('req.' + api) in seen,
                chk.key('req.' + api, 'C06.present', api, 'encoder-missing-or-never-succeeds'),
                'request encoder %s was not found or has no succeeding path' % api)
-    chk.floor('request encoder Ok leaves', n, 17 + 7)
+    chk.floor('request encoder Ok leaves (plus reported unanalysable paths)', n + getattr(chk, 'unanalysable', 0), 22)
     chk.assumptions = ['routing information update: 0-7 entries (the encoder refuses more; refusal checked by C16)']
 
 
@@ -370,7 +413,7 @@ def c07(chk):
         chk.ob('C07.present', 'resp.' + api, ('resp.' + api) in seen,
                chk.key('resp.' + api, 'C07.present', api, 'encoder-missing-or-never-succeeds'),
                'response encoder %s was not found or has no succeeding path' % api)
-    chk.floor('response encoder Ok leaves', n, 3 + 2 + 31 + 8)
+    chk.floor('response encoder Ok leaves (plus reported unanalysable paths)', n + getattr(chk, 'unanalysable', 0), 38)
     chk.assumptions = ['0-30 message types, vendor ID field of 0-7 bytes (the documented shapes)',
                        'the fields are required for every completion code (the library writes them regardless; the statement constrains Success)']
 
@@ -386,7 +429,7 @@ def c08(chk):
     chk.rules_text = 'R-layout on cells 8..len-2 of vendor_defined and the generate_* writers; R-class on the format byte'
     encs, n, seen = body_rule(chk, 'C08', ('vendor', 'writer'), 'vendor / SPDM framing')
     # message type byte (cell 8) for these writers
-    _, rows = analysed(chk)
+    _, rows = analysed(chk, report=False)
     for enc, lf, know, length, ordered, why in rows:
         if enc.kind not in ('vendor', 'writer') or ordered is None:
             continue
@@ -417,13 +460,14 @@ def c08(chk):
             chk.ob('C08.format', 'vendor_defined format=0x%02X' % v, ok,
                    chk.key(enc.entry, 'C08.format', enc.key, 'format=%02X' % v), what, site=site_of(enc),
                    nontrivial=v in (0, 1, 2, 0xFF))
-    chk.floor('vendor / writer Ok leaves', n, 2 + 16)
+    chk.floor('vendor / writer Ok leaves (plus reported unanalysable paths)', n + getattr(chk, 'unanalysable', 0), 2 + 16)
     chk.assumptions = ['message bodies of every length the SMBus frame can carry (longer ones are refused; checked by C04/C16)']
 
 
 # ------------------------------------------------------------------------------ C16
 
 def c16(chk):
+    RULE = 'C16'
     an, prog = chk.an, chk.an.prog
     chk.explanation = (
         'Per encoder, on every leaf. C16.a: on an Ok leaf the written bytes form a gap-free, overlap-free chain [0, len) and len '
@@ -437,7 +481,7 @@ def c16(chk):
     chk.rules_text = 'written-range chain, R-dep on free symbols, R-panic under len(buf) >= len, R-class on refusal guards'
     chk.assumptions = ['len(buf) >= the packet length', 'documented shapes: 16-byte UUID (in the type), vendor ID field of at most 7 bytes',
                        'the stubs request_tx_rate_limit / update_rate_limmit / query_supported_interfaces are declared unimplemented (not findings)']
-    encs, rows = analysed(chk)
+    encs, rows = analysed(chk, 'C16.a')
     n = 0
     for enc, lf, know, length, ordered, why in rows:
         n += 1
@@ -544,7 +588,7 @@ def c16(chk):
             chk.ob('C16.stub', enc.entry, ok, chk.key(enc.entry, 'C16.stub', enc.key, 'stub-returns'),
                    '%s is listed as an unimplemented stub but has a returning path; it needs a reference layout' % enc.key,
                    site=site_of(enc))
-    chk.floor('encoder Ok leaves', n, 60)
+    chk.floor('encoder Ok leaves (plus reported unanalysable paths)', n + getattr(chk, 'unanalysable', 0), 60)
     chk.floor('encoders analysed', len([e for e in encs if in_scope(e)]), N_ENCODERS_FLOOR)
 
 
